@@ -371,6 +371,39 @@ def horizon_overflow_rule(ctx: Ctx):
         raise AnchorMissing("_extendProjectEndIfNeeded: date + timedelta(estimate) not found")
 
 
+def backward_entry_window_rule(ctx: Ctx):
+    """R11.14: a backward task whose deadline lies beyond the scheduling horizon is reported as not schedulable, as a start pinned
+    after the project end is: between the assignment of the cursor from an explicit deadline (`cursor = slot(end) - 1`) and the
+    loops that search downwards for a working slot -- which would walk the cursor back INTO the horizon and so hide the problem
+    from the run-away test -- every path passes a test of the cursor against the slot of the project end."""
+    fn = ctx.repo.func("TaskScenario.schedule")
+    g = cfg_of(fn)
+    starts = []
+    for n in g.nodes:
+        a = n.ast
+        if n.kind == "stmt" and isinstance(a, ast.Assign) and norm(a.targets[0]) == "self.currentSlotIdx" and isinstance(a.value, ast.BinOp) \
+                and isinstance(a.value.op, ast.Sub) and isinstance(a.value.left, ast.Call) and norm(a.value.left.func).endswith("dateToIdx") \
+                and a.value.left.args and "project" not in norm(a.value.left.args[0]):
+            starts.append(n)
+    if not starts:
+        raise AnchorMissing("TaskScenario.schedule: backward cursor initialisation from an explicit deadline not found")
+
+    def is_window_test(n):
+        if n.kind != "if" or n.ast is None:
+            return False
+        t = norm(n.ast).replace('"', "'")
+        return "self.currentSlotIdx" in t and "dateToIdx" in t and "'end'" in t and ">" in t
+    for st in starts:
+        downs = [n for n in g.nodes if n.kind == "while" and n.ast is not None and "self.currentSlotIdx >" in norm(n.ast)
+                 and n.id in g.reachable(st, normal_only=True)]
+        ok = bool(downs) and all(g.all_paths_pass(st, d, is_window_test) for d in downs)
+        ctx.ob("R11.14", f"{fn.qual}: {norm(st.ast)[:60]} is tested against the horizon before the search for a working slot", (fn, st.ast), ok,
+               "a deadline beyond the horizon makes the task a run-away before the cursor is moved" if ok else
+               "the cursor set from an explicit deadline is walked down to the last working slot without a test against the project end: a backward "
+               "milestone dated after the horizon is marked scheduled there, outside the horizon, with no warning",
+               key="R11.14|TaskScenario.schedule|backward entry window")
+
+
 TREE_WORDS = ("children", "kids", "parent", "parents", "adoptees", "stepParents", "ancestors")
 
 
@@ -388,6 +421,7 @@ def run(ctx: Ctx):
     numeric_attribute_rule(ctx)
     allocation_forms_rule(ctx)
     horizon_overflow_rule(ctx)
+    backward_entry_window_rule(ctx)
     # ---------------------------------------------------------------- R11.1
     n_while = 0
     undecided = []
